@@ -199,8 +199,9 @@ def main():
             first = x["text"].split(" ", 1)[1] if " " in x["text"] else x["text"]
             key = "unprintable:prefix-without-symbol" if first[:1] in "0123456789" else f"quantity-unparseable:{x['text']}"
             c.violation(key, f"str(quantity) is {x['text']!r}, parsing raises {x['back']['err']}", repl)
-        elif x.get("unit_text", "x")[:1] in "0123456789.-" and " " in x.get("unit_text", "") and (x.get("equal") is not True or x.get("same_type") is not True):
-            # the unit prints a leading magnitude, which str(quantity) folds into the quantity's own (float rounding, int -> float)
+        elif x.get("unit_text", "x")[:1] in "0123456789.-" and " " in x.get("unit_text", "") and x.get("equal") is True and x.get("same_type") is not True:
+            # the unit prints a leading magnitude, which str(quantity) folds into the quantity's own: the value comes back equal (the fold is the
+            # very multiplication == performs) but an int magnitude comes back as a float; an UNEQUAL quantity is not this finding
             c.violation("unprintable:leading-magnitude", f"str(quantity) is {x['text']!r} (the unit alone prints as {x['unit_text']!r})", repl)
         elif x.get("equal") is not True:
             # a folded leading magnitude goes through float rounding; a collision changes the unit
